@@ -32,8 +32,6 @@ package apptest
 //@   trusted
 //@ extern watutil.Wat2Wasm
 //@   trusted
-//@ extern (*wazero.Module).RunFunc
-//@   trusted
 //@ extern (*wazero.Module).Close
 //@   trusted
 //@ extern filepath.Match
@@ -58,8 +56,8 @@ package apptest
 //@   trusted
 
 //@ func runTest
-//@   loop 0 invariant true
-//@   loop 1 invariant true
+//@   loop 0 invariant m != nil
+//@   loop 1 invariant m != nil
 //   Tests: a failure is recorded only for a test that breaks its contract ...
 //@   site fmt.Errorf.0 assert t.OutputPanic
 //@   site fmt.Errorf.1 assert t.OutputPanic && !hp(got, "panic: "+expect)
